@@ -48,7 +48,6 @@ import RtoscModel.Proofs.PrettyRunsExtMsg
 import RtoscModel.Proofs.PrettyRunsArrMsg
 import RtoscModel.Proofs.PrettyRunsArrNext
 import RtoscModel.ArgVal.Expand
-import RtoscModel.Generated.PrettyConst
 namespace Rtosc.Pretty
 open Rtosc Rtosc.Libc
 open Rtosc.ArgVal (Cell Item flatList expandList Val)
@@ -1253,65 +1252,52 @@ theorem PrinterPieces.inDomain {opt : POpt} (hopt : OptOK opt) {xs : List ASeg} 
       · rw [getLast?_map_val]; exact htag
     · exact ih (fun b hb => hlen b (by simp [hb])) (fun m b hb => hlenR m b (by simp [hb])) x hx
 
-/-! ### Nested arrays: a limit of the MODEL (not of the code) -/
+/-! ### Nested arrays: the model's nesting bound covers the previous argument -/
 
 /-- an array nested eight deep around the value 2, followed by the run 2 … 6 -/
 def deepItems : List Item :=
   [.arr 97 [.arr 97 [.arr 97 [.arr 97 [.arr 97 [.arr 97 [.arr 97 [.arr 105 [.val (.int .i 2)]]]]]]]],
    .val (.int .i 2), .val (.int .i 3), .val (.int .i 4), .val (.int .i 5), .val (.int .i 6)]
 
-/-- **nested_arrays_model_fuel_counterexample**: why nested arrays are not part of the proved class.
-    The printed text `[[[[[[[[2]]]]]]]] 2 ... 6` is correct, but the MODEL of the checker answers
-    `Err.fuel` on it: `ellipsisTail` (Pretty/Check.lean) re-skips the left neighbour of a range —
-    here the eight-deep array — with the recursion bound derived from the length of the range's own
-    text `2 ... 6`, which is too small for the nesting depth.  The bound is an artefact of the model
-    (the C function recurses without any bound); a statement about nested arrays followed by a range
-    needs the hypothesis `nesting depth + 3 ≤ length of the range text`, or a model whose
-    `ellipsisTail` takes the bound from the length of `llhssrc`. -/
-theorem nested_arrays_model_fuel_counterexample : ¬ RoundTrips defaultOpt deepItems := by
-  rintro ⟨st, ret, items', vs, h1, _, h3, _⟩
-  have hp : printArgVals defaultOpt (flatList deepItems) ⟨[], 0⟩ =
-      .ok (⟨lit "[[[[[[[[2]]]]]]]] 2 ... 6", 34⟩, 25) := by decide +kernel
-  rw [hp] at h1
-  cases h1
-  have hc : countPrintedArgVals (lit "[[[[[[[[2]]]]]]]] 2 ... 6") = .error .fuel := by decide +kernel
-  rw [hc] at h3
-  cases h3
+/-- what the scanner writes for the text of `deepItems`: the array, then the range `2 ... 6` -/
+def deepRead : List Item :=
+  [.arr 97 [.arr 97 [.arr 97 [.arr 97 [.arr 97 [.arr 97 [.arr 97 [.arr 105 [.val (.int .i 2)]]]]]]]],
+   .range 5 (.int .i 1) (.int .i 2)]
 
-/-- one level less and the model follows the code: 13 cells -/
+/-- the values of `deepItems` -/
+def deepVals : List Val :=
+  [.arr 97 [.arr 97 [.arr 97 [.arr 97 [.arr 97 [.arr 97 [.arr 97 [.arr 105 [.sc (.int .i 2)]]]]]]]],
+   .sc (.int .i 2), .sc (.int .i 3), .sc (.int .i 4), .sc (.int .i 5), .sc (.int .i 6)]
+
+/-- **nested_arrays_deep_reads**: the printed text `[[[[[[[[2]]]]]]]] 2 ... 6` (an eight-deep array
+    followed by a range) is counted and read back by the model as by the code (the code answers 12).
+    The range tail `ellipsisTail` (Pretty/Check.lean) re-skips the left neighbour of a range — here
+    the eight-deep array — which is nested deeper than the range's own text `2 ... 6` is long.
+    `countLoop` therefore hands `checkFuel src recent` (the longer of the current and the previous
+    argument text, plus 2) to `skipNextPrintedArg` as recursion bound.  `skipNextPrintedArg_fuel_mono`
+    (Proofs/PrettyCheckFuel.lean) proves that a larger bound never changes an answer (it can only
+    turn `Err.fuel` into an answer).  Not a theorem, but the reason for the choice: every recursive
+    call of the skipper works on a proper part of the current or of the previous argument text
+    (array elements, the operand of `nx`, the right-hand side of a range), apart from one call on
+    the whole previous argument, so the bound is not reached and the model has no nesting bound that
+    the C function (which recurses without a bound) lacks.  (With the bound `src.length + 2` the
+    model answered `Err.fuel` on this text.) -/
+theorem nested_arrays_deep_reads :
+    countPrintedArgVals (lit "[[[[[[[[2]]]]]]]] 2 ... 6") = .ok 12 ∧
+    scanArgVals (lit "[[[[[[[[2]]]]]]]] 2 ... 6") 12 = .ok (25, flatList deepRead) := by
+  constructor <;> decide +kernel
+
+/-- **nested_arrays_deep_roundtrips**: the full round trip of that list (printer, checker, scanner,
+    expansion) -/
+theorem nested_arrays_deep_roundtrips : RoundTrips defaultOpt deepItems := by
+  refine ⟨⟨lit "[[[[[[[[2]]]]]]]] 2 ... 6", 34⟩, 25, deepRead, deepVals, ?_, ?_, ?_, ?_, rfl, rfl⟩ <;>
+    decide +kernel
+
+/-- one level less: 11 cells -/
 example : countPrintedArgVals (lit "[[[[[[[2]]]]]]] 2 ... 6") = .ok 11 := by decide +kernel
 
-/-! ### The constants and tables extracted from the source (Generated/PrettyConst.lean) -/
-
-/-- the order in which the model tries the numeric formats -/
-def modelTryOrder : List NumFmt := [.h, .d, .ii, .x, .lfd, .ff, .f]
-
-def NumFmt.name : NumFmt → String
-  | .h => "h" | .d => "d" | .ii => "ii" | .x => "x" | .lfd => "lfd" | .ff => "ff" | .f => "f"
-
-theorem scanfFmtstr_order (s : Bytes) :
-    scanfFmtstr s = modelTryOrder.find? (fun nf => scanRd nf.tryDirs s = numWordLen s) := rfl
-
-/-- **tables_agree**: the model is written over the constants the source has today: compression
-    threshold, both escape tables (`case` labels and `default:` branch), the try-order of the
-    numeric formats and the set of reserved words (regenerated from src/cpp/pretty-format.c on
-    every run; `translatorOK` is false when the tables could not be read).  The default print
-    options are not compared: the property quantifies over the options. -/
-theorem tables_agree :
-    Generated.translatorOK = true ∧
-    rangeMin = Generated.rangeMin ∧
-    (∀ p ∈ Generated.escapeTable, asEscapedChar p.1 true = some p.2 ∧ asEscapedChar p.1 false = some p.2) ∧
-    (∀ p ∈ Generated.escapeDefault, asEscapedChar p.2.1 p.1 = some p.2.2) ∧
-    (∀ p ∈ Generated.unescapeTable, getEscapedChar p.1 true = p.2 ∧ getEscapedChar p.1 false = p.2) ∧
-    (∀ p ∈ Generated.unescapeDefault, getEscapedChar p.2.1 p.1 = p.2.2) ∧
-    modelTryOrder.map (fun nf => (nf.name, nf.type)) = Generated.tryOrder ∧
-    (reservedWords.all (fun w => (Generated.reservedWords.map lit).contains w) &&
-      (Generated.reservedWords.map lit).all (fun w => reservedWords.contains w)) = true := by
-  refine ⟨by decide, by decide, by decide, by decide, by decide, by decide, by decide, by decide +kernel⟩
-
-/-- **escape_tables_inverse**: `get_escaped_char` undoes `as_escaped_char` -/
-theorem escape_tables_inverse : ∀ p ∈ Generated.escapeTable, (p.2, p.1) ∈ Generated.unescapeTable := by
-  decide
+/-! The constants and tables extracted from the source (`tables_agree`, `escape_tables_inverse`) are in a module
+    of their own, Props/C10Tables.lean: a changed table breaks that obligation, not this module. -/
 
 /-! ### Non-vacuity: concrete inputs meet the hypotheses, and the conclusions evaluate as stated -/
 
